@@ -6,7 +6,7 @@
 //! validation by spec/Trace_Num.tla.
 use crate::alg::*;
 use crate::util::*;
-use az::{CheckedCast, OverflowingCast, SaturatingCast, WrappingCast};
+use az::{Cast, CheckedCast, OverflowingCast, SaturatingCast, WrappingCast};
 use num_traits::ops::euclid::{CheckedEuclid, Euclid};
 use num_traits::ops::overflowing::{OverflowingAdd, OverflowingMul, OverflowingSub};
 use num_traits::ops::saturating::{SaturatingAdd, SaturatingMul, SaturatingSub};
@@ -133,6 +133,8 @@ fn casts(d: &mut Drv) {
                     d.call("cast", || arg("az_overflowing"), || { let (x, f) = OverflowingCast::<$V<$t>>::overflowing_cast(v); json!({"v": o(x), "f": f as i64}) });
                     // az / unwrapped_as panic when a value does not fit (debug assertions are on in the harness profile)
                     d.call("cast", || arg("az_unwrapped"), || guarded(|| o(v.unwrapped_as::<$t>())).unwrap_or(json!([])));
+                    d.call("cast", || arg("az_unwrapped"), || guarded(|| o(v.az::<$t>())).unwrap_or(json!([])));
+                    d.call("cast", || arg("az_unwrapped"), || guarded(|| o(Cast::<$V<$t>>::cast(v))).unwrap_or(json!([])));
                 }};
             }
             to!(i8, 8, 1); to!(u8, 8, 0); to!(i16, 16, 1); to!(u16, 16, 0);
@@ -172,6 +174,10 @@ fn zero_one(d: &mut Drv) {
             if kind > 0 { let i = d.pick($n); a[i] = if kind == 1 { 1 } else { -3 }; }
             d.call("zero_one", || json!({"ty": $name, "how": "is_zero", "a": a}), || json!([Zero::is_zero(&$V::<i32>::from_slice(&a)) as i64]));
             d.call("zero_one", || json!({"ty": $name, "how": "zero", "a": vec![0; $n]}), || json!(<$V<i32> as Zero>::zero().into_iter().map(|e| e as i64).collect::<Vec<_>>()));
+            // feature bytemuck: the all-zero value, and the value seen as plain bytes and back (no padding, element order)
+            d.call("zero_one", || json!({"ty": $name, "how": "zero", "a": vec![0; $n]}), || json!(<$V<i32> as bytemuck::Zeroable>::zeroed().into_iter().map(|e| e as i64).collect::<Vec<_>>()));
+            { let w: Vec<i32> = (0..$n).map(|i| 7 + 3 * i as i32).collect();
+              d.call("zero_one", || json!({"ty": $name, "how": "zero", "a": w}), || { let v = $V::<i32>::from_slice(&w); let by: &[u8] = bytemuck::bytes_of(&v); let back: &[i32] = bytemuck::cast_slice(by); json!(back.iter().map(|e| *e as i64).collect::<Vec<_>>()) }); }
             d.call("zero_one", || json!({"ty": $name, "how": "one", "a": vec![1; $n]}), || json!(<$V<i32> as One>::one().into_iter().map(|e| e as i64).collect::<Vec<_>>()));
             // reciprocal per element on exact binary fractions
             let p: Vec<f64> = (0..$n).map(|_| [1.0, 2.0, -4.0, 0.5, 8.0, -0.25][d.pick(6)]).collect();
@@ -180,6 +186,14 @@ fn zero_one(d: &mut Drv) {
         }};
     }
     for_all_vecs!(one);
+    // matrices (both layouts) and the quaternion: all elements zero
+    macro_rules! zm { ($M:ty, $name:expr, $n:expr) => {{
+        d.call("zero_one", || json!({"ty": $name, "how": "zero", "a": vec![0; $n]}), || json!(<$M as bytemuck::Zeroable>::zeroed().into_row_array().iter().map(|e| *e as i64).collect::<Vec<_>>()));
+    }} }
+    zm!(vek::mat::repr_c::row_major::Mat2<i32>, "Mat2R", 4); zm!(vek::mat::repr_c::column_major::Mat2<i32>, "Mat2C", 4);
+    zm!(vek::mat::repr_c::row_major::Mat3<i32>, "Mat3R", 9); zm!(vek::mat::repr_c::column_major::Mat3<i32>, "Mat3C", 9);
+    zm!(vek::mat::repr_c::row_major::Mat4<i32>, "Mat4R", 16); zm!(vek::mat::repr_c::column_major::Mat4<i32>, "Mat4C", 16);
+    d.call("zero_one", || json!({"ty": "Quaternion", "how": "zero", "a": vec![0; 4]}), || { let q = <Quaternion<i32> as bytemuck::Zeroable>::zeroed(); json!([q.x as i64, q.y as i64, q.z as i64, q.w as i64]) });
 }
 
 /// approx lifts: the lifted predicate must be the conjunction of the scalar predicate over corresponding elements
